@@ -381,8 +381,10 @@ def run_check(plugin, prop, tier, seed, skip_lean=False) -> int:
                               'describe the correspondence / oracle exploration only')
     ev = {'property_id': prop, 'tier': tier, 'seed': seed, 'level': level, 'coverage': cov,
           'assumptions': list(getattr(plugin, 'ASSUMPTIONS', [])), 'wall_s': round(time.time() - t0, 2), 'violations': nviol}
-    os.makedirs(os.path.join(ROOT, 'evidence'), exist_ok=True)
-    with open(os.path.join(ROOT, 'evidence', f'{prop}.json'), 'w') as f:
+    # evidence/<ID>.json describes the run on VERIF_REPO; runs against scratch trees (seeded changes) may point VERIF_EVIDENCE_DIR elsewhere
+    evdir = os.environ.get('VERIF_EVIDENCE_DIR') or os.path.join(ROOT, 'evidence')
+    os.makedirs(evdir, exist_ok=True)
+    with open(os.path.join(evdir, f'{prop}.json'), 'w') as f:
         json.dump(ev, f, indent=1, default=str)
     for l in lines:
         print(l)
